@@ -203,7 +203,7 @@ class IO:
         _, exc, seam = self._armed(sim, op, d, lambda dd: self._write(sim, fmt, dd, subset, op.get("overwrite", False)), "w")
         if seam == "twin_failed":
             return None
-        out = {"resolved": {"fmt": fmt, "subset": None if subset is None else sorted(subset)}, "tags": [fmt] + (["subset"] if subset else []), "io": None if seam is None else (seam.fired_at if seam.fired else len(seam.events))}
+        out = {"resolved": {"fmt": fmt, "subset": None if subset is None else sorted(subset)}, "tags": [fmt] + (["subset"] if subset else []), "io": None if (seam is None or not seam.fired) else list(seam.fired)}
         injected = isinstance(exc, InjectedOSError) or (exc is not None and seam.fired is not None and isinstance(exc, OSError))
         if exc is None:
             out["cls"] = "accepted"
@@ -259,7 +259,7 @@ class IO:
         stride = max(1, -(-len(positions) // cap))
         positions = positions[::stride]
         pre = observe.deep(tr, len(sim.emissions))
-        out = {"resolved": {"fmt": fmt, "sweep": len(positions), "of": sum(s0.counts.values())}, "tags": [fmt, "sweep"], "cls": "returned", "io": len(s0.events)}
+        out = {"resolved": {"fmt": fmt, "sweep": len(positions)}, "tags": [fmt, "sweep"], "cls": "returned", "io": None}
         raised = swallowed = 0
         for fk, k in positions:
             d = self.fresh("sweep")
